@@ -178,6 +178,11 @@ def probes():
         ('**//**//b', (('star', 2), SEP1, ('star', 2), SEP1, b)),
         ('a/**/**/\\/**/b', (a, SEP1, ('star', 2), SEP1, ('star', 2), SEP1, ('star', 2), SEP1, b)),
         ('*\\//?', (pat.STAR, SEP1, pat.Q)),
+        # a group that can be empty still has to consume its whole (non-empty) segment
+        ('a/@(|b)/c', (a, SEP1, ('ext', '@', ((), (b,))), SEP1, c)),
+        ('a/+(|b)', (a, SEP1, ('ext', '+', ((), (b,))))),
+        ('**/@(|a)', (('star', 2), SEP1, ('ext', '@', ((), (a,))))),
+        ('@(|a)/b', (('ext', '@', ((), (a,))), SEP1, b)),
     ]
 
 
